@@ -16,7 +16,7 @@ PKG = 'saml2_tophat'
 
 if SRC not in sys.path:
     sys.path.insert(0, SRC)
-warnings.filterwarnings('ignore')
+warnings.simplefilter('ignore')
 
 # modules whose classes are registered (fixed list => deterministic class ids)
 REGISTER_MODULES = [
@@ -264,6 +264,8 @@ def is_const_data(v, depth=0):
         return True
     if depth > 4:
         return False
+    if isinstance(v, tuple) and v and all(isinstance(x, type) for x in v):
+        return True         # tuple of classes (six.string_types)
     if isinstance(v, (list, tuple)):
         return all(is_const_data(x, depth + 1) for x in v)
     if isinstance(v, dict):
@@ -293,6 +295,8 @@ def classify(v):
         slf = getattr(v, '__self__', None)
         if isinstance(slf, pytypes.ModuleType):
             mod = slf.__name__
+        elif isinstance(slf, type):
+            mod = slf.__module__
         return ('func', '%s:%s' % (mod, v.__qualname__))
     if is_const_data(v):
         return ('const', v)
